@@ -54,7 +54,9 @@ LOOK = ['skip_dec', 'skip_body', 'xfail',
         {'s': 'pass', 'w': [['fd2', 'noise from a test\n', False]]},
         {'s': 'pass', 'w': [['fd2', '0 0 0\n', False]]},
         {'s': 'pass', 'w': [['fd2', '1 2\n1 2 x\n', False]]},
-        {'s': 'pass', 'w': [['o', 'Traceback (most recent call last):\nError in test fake\n', False]]}]
+        {'s': 'pass', 'w': [['o', 'Traceback (most recent call last):\nError in test fake\n', False]]},
+        # bytes that are not UTF-8 on the real fd 2 (a C library, a legacy locale)
+        {'s': 'pass', 'w': [['fd2b', 'caf\xe9 \xff\xfe\n', False]]}]
 MODES = {'rep2': ['--repeat', '2'], 'j2rep2': ['-j2', '--repeat', '2'], 'rep3v': ['--repeat', '3', '-v'],
          'seq': [], 'j1': ['-j1'], 'j2': ['-j2'], 'j3': ['-j3'], 'v': ['-v'],
          'j2vv': ['-j2', '-vv'], 't': ['-t', 'q0|q1'], 'lvl': ['--only-level', '1'],
@@ -115,6 +117,10 @@ def cases(tier, seed):
         for m in ('seq', 'j2', 'v'):
             for with_layer in (False, True):
                 yield ['imp', kind, m, with_layer]
+    # the exit status is a yes/no answer, however many things went wrong
+    for n in (255, 256, 257, 512):
+        yield ['cli_many', n, 'seq']
+    yield ['cli_many', 256, 'j2']
     # the exit status of the real command line (real processes)
     for wi in range(len(CLI_WORLDS)):
         for m in ('seq', 'j2', 'v'):
@@ -209,6 +215,21 @@ def _mk_hook(cf, state):
     return hook
 
 
+def run_many_case(n, m):
+    """n bad outcomes (failures and errors, in two layers) as a real command line."""
+    layers = [{'n': 'A', 'b': [], 'k': 'c', 'h': list(worlds.HOOKS_SD)}]
+    tests = []
+    for i in range(n):
+        tests.append({'n': 'b%d' % i, 'l': (None if i % 2 else 'A'), 's': ('error' if i % 5 == 0 else 'fail')})
+    tests.append({'n': 'ok', 'l': 'A', 's': 'pass'})
+    res = runrt.run_cli({'layers': layers, 'tests': tests}, list(MODES[m]), timeout=300)
+    viol = []
+    if res.rc in (0, 'timeout'):
+        viol.append({'clause': 'exit_status', 'sig': {'part': 'cli_many', 'n': n, 'mode': m},
+                     'detail': '%d failing/erroring tests, argv %s: exit status %r\n%s' % (n, MODES[m], res.rc, res.text[-600:])})
+    return viol
+
+
 def run_imp_case(kind, m, with_layer):
     """A tree with one good test module (optionally with a layer) and one
     module of the given kind, run as a real command line."""
@@ -251,6 +272,10 @@ def run_imp_case(kind, m, with_layer):
 
 
 def run_case(case):
+    if case[0] == 'cli_many':
+        viol = run_many_case(case[1], case[2])
+        return {'evals': 1, 'nontrivial': 1, 'violations': viol, 'outcome': 'cli_many', 'nogate': True,
+                'counters': {'real_process_runs': 1}}
     if case[0] == 'imp':
         viol = run_imp_case(case[1], case[2], case[3])
         return {'evals': 1, 'nontrivial': 1, 'violations': viol, 'outcome': 'imp', 'nogate': True,
@@ -268,7 +293,7 @@ def run_case(case):
     truth = ow.Truth(spec, res)
     viol = []
     kinds = sorted({(s['s'] if isinstance(s, dict) else s) for s in sc if s != 'pass'})
-    noise = sorted({w[0] + ':' + w[1].split('\n')[0] for s in sc if isinstance(s, dict) for w in s.get('w', [])})
+    noise = sorted({w[0] + ':' + w[1].split('\n')[0].encode('ascii', 'backslashreplace').decode() for s in sc if isinstance(s, dict) for w in s.get('w', [])})
     sig = {'mode': m, 'scripts': kinds, 'noise': noise,
            'lf': sorted(h + ':' + e for d in lf.values() for h, e in d.items()),
            'bm': bool(bm), 'cf': cf[1] if cf else None}
